@@ -151,7 +151,7 @@ def coq_eval_many(jobs, timeout=1800, par=16):
             with open(path, 'w') as f:
                 f.write(text)
             fo = open(path + '.out', 'w')
-            p = subprocess.Popen(['timeout', str(timeout), 'coqc', '-Q', COQ, 'H2', '-Q', d, 'Scratch', path],
+            p = subprocess.Popen(['bash', '-c', 'ulimit -s unlimited 2>/dev/null; exec timeout %d coqc -Q %s H2 -Q %s Scratch %s' % (timeout, COQ, d, path)],
                                  stdout=fo, stderr=subprocess.STDOUT, text=True, cwd=d)
             running.append((name, path, p, fo))
         still = []
